@@ -99,94 +99,104 @@ def perHalf (w : Nat) (f : List (Lane α) → List (Lane α) → List (Lane α))
 def shuf4 (immv : Nat) (sLanes : List (Lane α)) : List (Lane α) :=
   [nth sLanes (immv % 4), nth sLanes (immv / 4 % 4), nth sLanes (immv / 16 % 4), nth sLanes (immv / 64 % 4)]
 
+inductive Op where
+  | movq | ret | vzeroupper | vzeroall | vmovups | movups | movl | vpmovzxbd | vperm | vaddps | vsubps | vdivps
+  | vunpckl | vunpckh | addps | divps | pshufd | vpsrldq | vpslldq | vshufps | vblendps | vperm2f128 | unknown
+  deriving DecidableEq, Repr
+
+def opcode (m : String) : Op :=
+  if m == "MOVQ" then .movq else if m == "RET" then .ret else if m == "VZEROUPPER" then .vzeroupper
+  else if m == "VZEROALL" then .vzeroall else if m == "VMOVUPS" then .vmovups else if m == "MOVUPS" then .movups
+  else if m == "MOVL" then .movl else if m == "VPMOVZXBD" then .vpmovzxbd
+  else if m == "VPERMD" || m == "VPERMPS" then .vperm
+  else if m == "VADDPS" then .vaddps else if m == "VSUBPS" then .vsubps else if m == "VDIVPS" then .vdivps
+  else if m == "VUNPCKLPS" || m == "VPUNPCKLDQ" then .vunpckl else if m == "VUNPCKHPS" || m == "VPUNPCKHDQ" then .vunpckh
+  else if m == "ADDPS" then .addps else if m == "DIVPS" then .divps else if m == "PSHUFD" then .pshufd
+  else if m == "VPSRLDQ" then .vpsrldq else if m == "VPSLLDQ" then .vpslldq else if m == "VSHUFPS" then .vshufps
+  else if m == "VBLENDPS" then .vblendps else if m == "VPERM2F128" then .vperm2f128 else .unknown
+
+/-- three-operand arithmetic on n lanes: d := b (op) a -/
+def bin3 (table : String → List Nat × Nat) (f : α → α → α) (n : Nat) (s : S α) (a : Arg) (b d : Nat) : Option (S α) := do
+  let x ← src table s a n
+  let y := (getReg s b).take n
+  pure (setReg s d (vex (List.zipWith (lift2 f) y x)))
+
+/-- legacy two-operand arithmetic on 4 lanes: d := d (op) a, upper lanes kept -/
+def bin2 (table : String → List Nat × Nat) (f : α → α → α) (s : S α) (a : Arg) (d : Nat) : Option (S α) := do
+  let x ← src table s a 4
+  let y := (getReg s d).take 4
+  pure (setReg s d (List.zipWith (lift2 f) y x ++ hi (getReg s d)))
+
+def unpck (table : String → List Nat × Nat) (high : Bool) (n : Nat) (s : S α) (a : Arg) (b d : Nat) : Option (S α) := do
+  let x ← src table s a n
+  let y := (getReg s b).take n
+  let f : List (Lane α) → List (Lane α) → List (Lane α) :=
+    if high then (fun a b => [nth b 2, nth a 2, nth b 3, nth a 3]) else (fun a b => [nth b 0, nth a 0, nth b 1, nth a 1])
+  pure (setReg s d (vex (perHalf n f x y)))
+
 def exec (table : String → List Nat × Nat) (ins : VIns) (s : S α) : Option (S α) :=
-  match ins.op, ins.args with
-  | "MOVQ", _ => some s
-  | "RET", _ => some s
-  | "VZEROUPPER", _ => some { s with regs := s.regs.map (fun r => lo r ++ zero4) }
-  | "VZEROALL", _ => some { s with regs := s.regs.map (fun _ => zero8) }
-  | "VMOVUPS", [a, .reg y d] => do
+  match opcode ins.op, ins.args with
+  | .movq, _ => some s
+  | .ret, _ => some s
+  | .vzeroupper, _ => some { s with regs := s.regs.map (fun r => lo r ++ zero4) }
+  | .vzeroall, _ => some { s with regs := s.regs.map (fun _ => zero8) }
+  | .vmovups, [a, .reg y d] => do
       let l ← src table s a (if y then 8 else 4)
       pure (setReg s d (vex l))
-  | "VMOVUPS", [.reg y r, m] => store s m ((getReg s r).take (if y then 8 else 4))
-  | "MOVUPS", [a, .reg _ d] => do
+  | .vmovups, [.reg y r, m] => store s m ((getReg s r).take (if y then 8 else 4))
+  | .movups, [a, .reg _ d] => do
       let l ← src table s a 4
       pure (setReg s d (l ++ hi (getReg s d)))
-  | "MOVUPS", [.reg _ r, m] => store s m ((getReg s r).take 4)
-  | "MOVL", [.gpr "CX", m] => store s m [s.cx]
-  | "MOVL", [m, .gpr "CX"] => do
+  | .movups, [.reg _ r, m] => store s m ((getReg s r).take 4)
+  | .movl, [.gpr "CX", m] => store s m [s.cx]
+  | .movl, [m, .gpr "CX"] => do
       let l ← src table s m 1
       pure { s with cx := nth l 0 }
-  | "VPMOVZXBD", [a, .reg true d] => do
+  | .vpmovzxbd, [a, .reg true d] => do
       let l ← src table s a 8
       pure (setReg s d l)
-  | "PSHUFD", [.imm v, a, .reg _ d] => do
+  | .vperm, [a, .reg true ix, .reg true d] => do
+      let data ← src table s a 8
+      let idx := getReg s ix
+      pure (setReg s d (idx.map fun l => match l with | .i k => nth data (k % 8) | .v _ => .i 0))
+  | .vaddps, [a, .reg true b, .reg true d] => bin3 table Alg.add 8 s a b d
+  | .vsubps, [a, .reg true b, .reg true d] => bin3 table Alg.sub 8 s a b d
+  | .vdivps, [a, .reg true b, .reg true d] => bin3 table Alg.div 8 s a b d
+  | .vaddps, [a, .reg false b, .reg false d] => bin3 table Alg.add 4 s a b d
+  | .vsubps, [a, .reg false b, .reg false d] => bin3 table Alg.sub 4 s a b d
+  | .vdivps, [a, .reg false b, .reg false d] => bin3 table Alg.div 4 s a b d
+  | .vunpckl, [a, .reg true b, .reg true d] => unpck table false 8 s a b d
+  | .vunpckh, [a, .reg true b, .reg true d] => unpck table true 8 s a b d
+  | .vunpckl, [a, .reg false b, .reg false d] => unpck table false 4 s a b d
+  | .vunpckh, [a, .reg false b, .reg false d] => unpck table true 4 s a b d
+  | .addps, [a, .reg _ d] => bin2 table Alg.add s a d
+  | .divps, [a, .reg _ d] => bin2 table Alg.div s a d
+  | .pshufd, [.imm v, a, .reg _ d] => do
       let x ← src table s a 4
       pure (setReg s d (shuf4 v x ++ hi (getReg s d)))
-  | "VPSRLDQ", [.imm v, .reg false a, .reg false d] =>
+  | .vpsrldq, [.imm v, .reg false a, .reg false d] =>
       let x := (getReg s a).take 4
       let k := v / 4
       if v % 4 == 0 then some (setReg s d ((List.range 4).map (fun i => if i + k < 4 then nth x (i + k) else z) ++ zero4)) else none
-  | "VPSLLDQ", [.imm v, .reg false a, .reg false d] =>
+  | .vpslldq, [.imm v, .reg false a, .reg false d] =>
       let x := (getReg s a).take 4
       let k := v / 4
       if v % 4 == 0 then some (setReg s d ((List.range 4).map (fun i => if k ≤ i then nth x (i - k) else z) ++ zero4)) else none
-  | "VSHUFPS", [.imm v, a, .reg false b, .reg false d] => do
+  | .vshufps, [.imm v, a, .reg false b, .reg false d] => do
       let x ← src table s a 4
       let y := (getReg s b).take 4
       pure (setReg s d ([nth y (v % 4), nth y (v / 4 % 4), nth x (v / 16 % 4), nth x (v / 64 % 4)] ++ zero4))
-  | "VBLENDPS", [.imm v, a, .reg false b, .reg false d] => do
+  | .vblendps, [.imm v, a, .reg false b, .reg false d] => do
       let x ← src table s a 4
       let y := (getReg s b).take 4
       pure (setReg s d ((List.range 4).map (fun i => if v / 2 ^ i % 2 == 1 then nth x i else nth y i) ++ zero4))
-  | "VPERM2F128", [.imm v, a, .reg true b, .reg true d] => do
+  | .vperm2f128, [.imm v, a, .reg true b, .reg true d] => do
       let x ← src table s a 8
       let y := getReg s b
       let sel (c : Nat) : List (Lane α) :=
         if c / 8 % 2 == 1 then zero4
         else match c % 4 with | 0 => lo y | 1 => hi y | 2 => lo x | _ => hi x
       pure (setReg s d (sel (v % 16) ++ sel (v / 16 % 16)))
-  | op, [a, .reg true ix, .reg true d] =>
-      if op == "VPERMD" || op == "VPERMPS" then do
-        let data ← src table s a 8
-        let idx := getReg s ix
-        pure (setReg s d (idx.map fun l => match l with | .i k => nth data (k % 8) | .v _ => .i 0))
-      else if op == "VADDPS" || op == "VSUBPS" || op == "VDIVPS" then do
-        let x ← src table s a 8
-        let y := getReg s ix
-        let f : α → α → α := if op == "VADDPS" then Alg.add else if op == "VSUBPS" then Alg.sub else Alg.div
-        pure (setReg s d (List.zipWith (lift2 f) y x))
-      else if op == "VUNPCKLPS" || op == "VPUNPCKLDQ" then do
-        let x ← src table s a 8
-        let y := getReg s ix
-        pure (setReg s d (perHalf 8 (fun a b => [nth b 0, nth a 0, nth b 1, nth a 1]) x y))
-      else if op == "VUNPCKHPS" || op == "VPUNPCKHDQ" then do
-        let x ← src table s a 8
-        let y := getReg s ix
-        pure (setReg s d (perHalf 8 (fun a b => [nth b 2, nth a 2, nth b 3, nth a 3]) x y))
-      else none
-  | op, [a, .reg false b, .reg false d] =>
-      if op == "VADDPS" || op == "VSUBPS" || op == "VDIVPS" then do
-        let x ← src table s a 4
-        let y := (getReg s b).take 4
-        let f : α → α → α := if op == "VADDPS" then Alg.add else if op == "VSUBPS" then Alg.sub else Alg.div
-        pure (setReg s d (List.zipWith (lift2 f) y x ++ zero4))
-      else if op == "VUNPCKLPS" || op == "VPUNPCKLDQ" then do
-        let x ← src table s a 4
-        let y := (getReg s b).take 4
-        pure (setReg s d ([nth y 0, nth x 0, nth y 1, nth x 1] ++ zero4))
-      else if op == "VUNPCKHPS" || op == "VPUNPCKHDQ" then do
-        let x ← src table s a 4
-        let y := (getReg s b).take 4
-        pure (setReg s d ([nth y 2, nth x 2, nth y 3, nth x 3] ++ zero4))
-      else none
-  | op, [a, .reg _ d] =>
-      if op == "ADDPS" || op == "DIVPS" then do
-        let x ← src table s a 4
-        let y := (getReg s d).take 4
-        let f : α → α → α := if op == "ADDPS" then Alg.add else Alg.div
-        pure (setReg s d (List.zipWith (lift2 f) y x ++ hi (getReg s d)))
-      else none
   | _, _ => none
 
 def run (table : String → List Nat × Nat) : List VIns → S α → Option (S α)
